@@ -49,7 +49,18 @@ func c11Deposit() (a, b MsgSendToPalomaClaim) {
 // VerifC11_Deposit: MsgSendToPalomaClaim
 func VerifC11_Deposit() {
 	a, b := c11Deposit()
-	switch sym.Choice("field", 7) {
+	switch sym.Choice("field", 8) {
+	case 7: // free-form text fields (the receiver is deliberately not validated): spellings that a
+		// path-style joiner or trimmer would fold together are still different claims
+		pairs := [][2]string{{"paloma1receiver", "paloma1receiver/."}, {"paloma1receiver", "paloma1receiver/"}, {"paloma1receiver", "./paloma1receiver"},
+			{"paloma1receiver", "x/../paloma1receiver"}, {"paloma1receiver", " paloma1receiver"}, {"paloma1receiver", "PALOMA1RECEIVER"}, {"", "."}}
+		pr := pairs[sym.Choice("spelling", len(pairs))]
+		if sym.Bool("in-compass-id") {
+			a.CompassId, b.CompassId = pr[0], pr[1]
+		} else {
+			a.PalomaReceiver, b.PalomaReceiver = pr[0], pr[1]
+		}
+		c11Check(c11Key("test-chain", &a), c11Key("test-chain", &b), "deposit-key-distinguishes-spellings-of-text-fields")
 	case 0:
 		a.SkywayNonce, b.SkywayNonce = sym.Uint64("x"), sym.Uint64("y")
 		sym.Assume(a.SkywayNonce != b.SkywayNonce)
